@@ -190,6 +190,20 @@ var deformations = []deformation{
 		}
 		return strings.Join(lines, "") + b.String()
 	}},
+	{"line-directives", func(rt *rapid.T, src, label string) string {
+		// generated source (goyacc, cgo): //line directives in front of some
+		// functions; positions after them are reported for another file
+		// and other lines, often far beyond the end of this file
+		return pickLines(rt, src, label, func(l string) bool { return strings.HasPrefix(l, "func ") },
+			func(l string) string {
+				_, e := splitEOL(l)
+				if e == "" {
+					e = "\n"
+				}
+				n := []int{1, 7, 400, 9000}[len(l)%4]
+				return fmt.Sprintf("//line gen.y:%d%s", n, e) + l
+			})
+	}},
 	{"import-to-group", func(rt *rapid.T, src, label string) string {
 		// import "x"  ->  import ( "x" )  on one line, spaced oddly
 		return pickLines(rt, src, label, func(l string) bool { return strings.HasPrefix(l, "import \"") },
